@@ -1,6 +1,6 @@
 (** C05 -- Checksummed files reject every detectable corruption.
     Statements only; proofs in Proofs/Crc_Proofs.v. *)
-From SB Require Import Base.Prelude Gen.Generated Model.Crc Model.Container Spec.CrcSpec Spec.ContainerSpec Proofs.Crc_Proofs.
+From SB Require Import Base.Prelude Gen.Generated Model.Crc Model.Container Spec.CrcSpec Spec.ContainerSpec Proofs.Crc_Proofs Proofs.CrcOrder_Proofs.
 Local Open Scope Z_scope.
 
 (** The table in crc32.c (regenerated from the source on every run) is the
@@ -100,6 +100,20 @@ Theorem two_bits_detected_upto : forall crc bytes i j,
   crc_update crc (flip_bit (flip_bit bytes i) j) <> crc_update crc bytes.
 Proof. exact Crc_Proofs.two_bits_detected_upto. Qed.
 Print Assumptions two_bits_detected_upto.
+
+(** ... and without the bound: the register step has multiplicative order
+    exactly 2^32 - 1 (the reflected polynomial 0xEDB88320 is primitive: the
+    step's (2^32-1)-th power is the identity and none of its powers with
+    exponent (2^32-1)/p, p in {3, 5, 17, 257, 65537}, is -- computed inside the
+    kernel with 32x32 bit matrices and repeated squaring), so two flipped bits
+    are detected whenever they are less than 2^32 - 1 bit positions (512 MiB)
+    apart: for every file a 32-bit CRC can protect at all. *)
+Theorem two_bits_detected : forall crc bytes i j,
+  0 <= crc < 4294967296 -> wf_bytes bytes = true ->
+  (i < j)%nat -> (j < 8 * length bytes)%nat -> Z.of_nat j - Z.of_nat i < 4294967295 ->
+  crc_update crc (flip_bit (flip_bit bytes i) j) <> crc_update crc bytes.
+Proof. exact CrcOrder_Proofs.two_bits_detected. Qed.
+Print Assumptions two_bits_detected.
 
 (** Non-vacuity: the standard check string "123456789". *)
 Example crc_check_value :
